@@ -73,7 +73,17 @@ type Scenario struct {
 	FinePts   int    `json:"fine_pts,omitempty"`
 	Preempt   int    `json:"preempt,omitempty"`
 
+	Fault *FaultSpec `json:"fault,omitempty"` // scripted store fault (C03)
+
 	Tags map[string]string `json:"tags,omitempty"`
+}
+
+// FaultSpec: from the FromN-th heartbeat Update of Inst on, every store op of Inst
+// is answered according to Mode: err:timeout | err:noresp | err:closed | hang | lost.
+type FaultSpec struct {
+	Inst  string `json:"inst"`
+	FromN int    `json:"from_n"`
+	Mode  string `json:"mode"`
 }
 
 func (s *Scenario) inst(id string) *InstSpec {
